@@ -129,7 +129,24 @@ func Accept(q *world.Req, chain []world.Entry, name func(hid int) string) []Find
 		}
 		fail("R6-unexplained-panic", "the framework panicked between handlers although the next handler ("+name(nextSim(chain, pos))+") can be invoked; a handler whose dependencies cannot be resolved is tried at most once", nil)
 	}
+	rhActive, rhDue := false, -1
 	for ei, e := range q.Events {
+		// R3 "its return values, if any, having been rendered first": once a request-scoped
+		// ReturnHandler is mapped, it is called right after a value-returning handler returned.
+		if rhDue >= 0 && e.K != world.EvCancel && e.K != world.EvNote {
+			if e.K != world.EvRHCall {
+				fail("R3-return-not-rendered", "handler "+name(rhDue)+" returned values but the request's ReturnHandler was not called to render them before the chain went on", nil)
+			}
+			rhDue = -1
+		}
+		switch e.K {
+		case world.EvRHMapped:
+			rhActive = true
+		case world.EvExit:
+			if rhActive && ei > 0 && q.Events[ei-1].K == world.EvRet && q.Events[ei-1].H == e.H {
+				rhDue = int(e.H)
+			}
+		}
 		if ei > 0 {
 			switch p := q.Events[ei-1].K; p {
 			case world.EvSpyRefuse:
@@ -273,6 +290,9 @@ func Accept(q *world.Req, chain []world.Entry, name func(hid int) string) []Find
 			unwinding = false
 			skipContinueCheck = true
 		}
+	}
+	if rhDue >= 0 {
+		fail("R3-return-not-rendered", "handler "+name(rhDue)+" returned values but the request's ReturnHandler was never called to render them", nil)
 	}
 	if len(stack) != 0 && q.Escaped == "" {
 		fail("R2-onion", "ServeHTTP returned while "+name(stack[len(stack)-1].hid)+" had not finished", nil)
